@@ -14,5 +14,20 @@ CLAIMED = {
    note='Trusted: z3; the bitwise reference definitions (validated on the published check values); the fold-shape recogniser '
         '(if the shape is not recognised only the bounded claim is made and reported in evidence).',
    technique='inductive step lemma over the AST-sliced loop body + bounded symbolic execution, z3 QF_BV'),
+ 'C07': dict(
+   text='Bounded symbolic execution of the real Builder/Slice/TvmBitarray/Cell code: for each store type at the fill levels around its '
+        'capacity edge (thorough: every fill level for five types), each reference-adding operation at 0..4 pre-stored references, '
+        'chains at depth 1022/1023/1024, and each consuming read at remaining/requested lengths around the boundary (requested length '
+        'also as a solver-enumerated symbolic integer), the solver shows for ALL operand values and contents: refused iff it does not fit, '
+        'otherwise exactly the encoding is appended / exactly the next bits are returned.',
+   note='Trusted: z3, SX leaf types and bitarray model (validated per path witness), specs/enc.py. Operation sequences are prefill + '
+        'references + one operation; structure is enumerated.'),
+ 'C01': dict(
+   text='Bounded symbolic execution of the real Cell hashing code against an independent level-recursive specification of the TVM cell '
+        'representation: for every bit length 0..1023, 0..4 references, a family of DAG shapes (sharing, diamonds, chains to depth 1023) '
+        'and 8 construction routes, with ALL data bits symbolic and SHA-256 as an injective uninterpreted function, hash/depth/per-level '
+        'values/representation bytes equal the specification; equality, raw __hash__ and dictionary collisions follow the hashes.',
+   note='Trusted: z3; SHA-256 collision-freeness (as an axiom, instantiated pairwise per path); specs/cellspec.py; the bitarray model '
+        '(validated per path witness against the real library, where the real SHA-256 is used). DAG shapes outside the family are not covered.'),
 }
 NOT_APPLICABLE = {}
